@@ -1733,3 +1733,93 @@ def timestep2d_clause(vals):
             show(nx=nx, ny=ny, lx=lx, ly=ly, timestep=dt.reshape(-1)[:3].tolist(), expected=want[:3].tolist())
             ok = False
     return ok
+
+
+def uniform2d_clause(vals, num, bc, flow):
+    """2-D operator on a uniform state with matched boundary conditions: the residual vanishes"""
+    import flowdyn.mesh2d as mesh2d, flowdyn.modeldisc as md, flowdyn.modelphy.euler as eu, flowdyn.xnum as xnum, flowdyn.field as field
+    ok = True
+    g = 1.4
+    for (rho, mach, p) in ((1.0, 0.3, 1.0), (0.7, 1.8, 2.5), (2.0, 0.0, 0.4)):
+        c = math.sqrt(g * p / rho)
+        q = mach * c
+        if flow == "any":
+            V = (q * math.cos(0.7), q * math.sin(0.7))
+        elif flow == "+x":
+            V = (q, 0.0)
+        elif flow == "-x":
+            V = (-q, 0.0)
+        elif flow == "+y":
+            V = (0.0, q)
+        else:
+            V = (0.0, 0.0)
+        if ("insup" in bc or "outsup" in bc) and mach <= 1:
+            continue
+        if ("insub" in bc) and mach >= 1:
+            continue
+        X = 1 + (g - 1) / 2 * mach * mach
+        prm = {"ptot": p * X ** (g / (g - 1)), "rttot": p / rho * X, "p": p}
+        for nx, ny, lx, ly in ((1, 1, 1.0, 2.0), (3, 2, 0.9, 1.7), (5, 4, 2.0, 1.0)):
+            for flux in ("centered", "hlle"):
+                for kap in ((None,) if num == "extrapol2d1" else (1. / 3., -1.0)):
+                    model = eu.euler2d(gamma=g)
+                    nm = xnum.extrapol2d1() if num == "extrapol2d1" else xnum.extrapol2dk(kap)
+                    bcs = {s: dict(prm, type=t) for s, t in zip(("left", "right", "bottom", "top"), bc)}
+                    msh = mesh2d.mesh2d(nx, ny, lx, ly)
+                    n = nx * ny
+                    try:
+                        disc = md.fvm2dcart(model, msh, nm, bcs, numflux=flux)
+                        f = field.fdata(model, msh, model.prim2cons([np.full(n, rho), np.array([np.full(n, V[0]), np.full(n, V[1])]), np.full(n, p)]))
+                        r = disc.rhs(f)
+                    except Exception as e:
+                        show(num=num, bc=bc, nx=nx, ny=ny, flux=flux, exception=repr(e))
+                        ok = False
+                        continue
+                    err = max(float(np.max(np.abs(r[0]))), float(np.max(np.abs(r[1]))), float(np.max(np.abs(r[2]))))
+                    if not err <= 1e-10 * max(1.0, p * (q + c) / min(lx / nx, ly / ny)):
+                        show(num=num, bc=bc, state=(rho, V, p), nx=nx, ny=ny, flux=flux, kappa=kap, residual=err)
+                        ok = False
+    return ok
+
+
+def kappa2d_clause(vals, num):
+    """face states of the 2-D reconstructions on the periodic grid against the kappa-scheme states of each row / column"""
+    import flowdyn.mesh2d as mesh2d, flowdyn.modeldisc as md, flowdyn.modelphy.euler as eu, flowdyn.xnum as xnum, flowdyn.field as field
+    ok = True
+    for nx, ny in ((1, 1), (2, 3), (3, 2), (5, 4)):
+        for kap in ((None,) if num == "extrapol2d1" else (1. / 3., -1.0, 0.4)):
+            model = eu.euler2d()
+            nm = xnum.extrapol2d1() if num == "extrapol2d1" else xnum.extrapol2dk(kap)
+            per = {"type": "per"}
+            msh = mesh2d.mesh2d(nx, ny, 1.3, 0.7)
+            disc = md.fvm2dcart(model, msh, nm, {"left": per, "right": per, "bottom": per, "top": per}, numflux="centered")
+            rng = np.random.default_rng(10 * nx + ny)
+            n = nx * ny
+            rho, p = 1 + 0.3 * rng.uniform(-1, 1, n), 1 + 0.3 * rng.uniform(-1, 1, n)
+            V = 0.4 * rng.uniform(-1, 1, (2, n))
+            try:
+                disc.rhs(field.fdata(model, msh, model.prim2cons([rho, V, p])))
+            except Exception as e:
+                show(num=num, nx=nx, ny=ny, kappa=kap, exception=repr(e))
+                ok = False
+                continue
+            k_ = 0.0 if kap is None else kap
+            km, kp = ((1 - k_) / 4, (1 + k_) / 4) if kap is not None else (0.0, 0.0)
+            U = rho.reshape(ny, nx)
+            pL, pR = np.asarray(disc.pL[0]), np.asarray(disc.pR[0])
+            fsh = ny * (nx + 1)
+            for J in range(ny):
+                for I in range(nx):
+                    um, umm, u0, up = U[J, (I - 1) % nx], U[J, (I - 2) % nx], U[J, I], U[J, (I + 1) % nx]
+                    wl = um + km * (um - umm) + kp * (u0 - um)
+                    wr = u0 - km * (up - u0) - kp * (u0 - um)
+                    f = J * (nx + 1) + I
+                    vm, vmm, vp = U[(J - 1) % ny, I], U[(J - 2) % ny, I], U[(J + 1) % ny, I]
+                    yl = vm + km * (vm - vmm) + kp * (u0 - vm)
+                    yr = u0 - km * (vp - u0) - kp * (u0 - vm)
+                    fy = fsh + J * nx + I
+                    if not (close(pL[f], wl) and close(pR[f], wr) and close(pL[fy], yl) and close(pR[fy], yr)):
+                        show(num=num, nx=nx, ny=ny, kappa=kap, cell=(J, I), x_face=(float(pL[f]), float(pR[f])), kappa_states_x=(float(wl), float(wr)),
+                             y_face=(float(pL[fy]), float(pR[fy])), kappa_states_y=(float(yl), float(yr)))
+                        ok = False
+    return ok
